@@ -68,9 +68,37 @@ def r8_1(repo: Repo) -> RuleResult:
     return rr
 
 
-def _block_loops(repo: Repo) -> List[Tuple[Func, ast.For, str, str, ast.AST]]:
-    """(function, loop, count name, size expr text, size definition) for loops
-    `for i in range(K)` with K = (N // B) + 1."""
+def _covers(c: ast.AST, need: "sym.Poly", size: str) -> bool:
+    """Is the block count `c` one of the spellings of ceil-or-more of need / size?
+    X // B + 1, ceil(X / B), (X + B - 1) // B, (X - 1) // B + 1 with X == need (as polynomials)."""
+    B = sym.poly(ast.parse(size, mode="eval").body)
+    one = {(): 1}
+
+    def is_b(e):
+        return sym.poly(e) == B
+
+    # strip int(...) / np.ceil / math.ceil
+    inner = c
+    if isinstance(inner, ast.Call) and norm(inner.func) == "int" and len(inner.args) == 1:
+        inner = inner.args[0]
+    if isinstance(inner, ast.Call) and norm(inner.func) in ("np.ceil", "numpy.ceil", "math.ceil", "ceil") and len(inner.args) == 1:
+        q = inner.args[0]
+        return isinstance(q, ast.BinOp) and isinstance(q.op, ast.Div) and is_b(q.right) and sym.poly(q.left) == need
+    if isinstance(c, ast.BinOp) and isinstance(c.op, ast.Add):
+        for a, b in ((c.left, c.right), (c.right, c.left)):
+            if norm(b) == "1" and isinstance(a, ast.BinOp) and isinstance(a.op, ast.FloorDiv) and is_b(a.right):
+                x = sym.poly(a.left)
+                if x == need or x == sym.sub(need, one):
+                    return True
+    if isinstance(c, ast.BinOp) and isinstance(c.op, ast.FloorDiv) and is_b(c.right):
+        if sym.poly(c.left) == sym.sub(sym._add(need, B), one):
+            return True
+    return False
+
+
+def _block_loops(repo: Repo):
+    """(function, loop, count text, size text, covering count expression or None, extent text, candidate texts) for block
+    loops: `for i in range(K)` whose body computes a start `base + i * B` and an end `min(E, start + B)`."""
     out = []
     for f in repo.module(LOT).all_funcs:
         if f.cls is not None and f.cls.name == "WassersteinVectorizerOld":
@@ -81,15 +109,44 @@ def _block_loops(repo: Repo) -> List[Tuple[Func, ast.For, str, str, ast.AST]]:
                 defs.setdefault(n.targets[0].id, []).append(n)
         for lp in [n for n in walk_no_nested(f.node) if isinstance(n, ast.For)]:
             it = lp.iter
-            if not (isinstance(it, ast.Call) and norm(it.func) == "range" and len(it.args) == 1):
+            if not (isinstance(it, ast.Call) and norm(it.func) in ("range", "numba.prange", "prange") and len(it.args) == 1 and isinstance(lp.target, ast.Name)):
+                continue
+            i = lp.target.id
+            size = start_name = None
+            base = None
+            for st in lp.body:
+                if isinstance(st, ast.Assign) and isinstance(st.targets[0], ast.Name):
+                    p = sym.poly(st.value)
+                    for m, c in p.items():
+                        if c == 1 and len(m) == 2 and i in m and size is None:
+                            size = [x for x in m if x != i][0]
+                            start_name = st.targets[0].id
+                            base = {k: v for k, v in p.items() if k != m}
+            if size is None:
                 continue
             count = it.args[0]
             cands = [count] if not isinstance(count, ast.Name) else [d.value for d in defs.get(count.id, []) if d.lineno < lp.lineno]
-            for c in cands:
-                # (N // B) + 1
-                if isinstance(c, ast.BinOp) and isinstance(c.op, ast.Add) and norm(c.right) == "1" and isinstance(c.left, ast.BinOp) and isinstance(c.left.op, ast.FloorDiv):
-                    out.append((f, lp, norm(count), norm(c.left.right), c.left))
-                    break
+            # the extent the blocks must cover: the other operand of min(start + B, E), E taken relative to the base
+            want_end = sym._add(sym.poly(ast.Name(id=start_name, ctx=ast.Load())), sym.poly(ast.parse(size, mode="eval").body))
+            extent = None
+            for c in ast.walk(lp):
+                if isinstance(c, ast.Call) and norm(c.func) == "min" and len(c.args) == 2 and not c.keywords:
+                    for a, b in ((c.args[0], c.args[1]), (c.args[1], c.args[0])):
+                        if sym.poly(a) == want_end:
+                            extent = b
+            good = None
+            if extent is not None:
+                need = sym.sub(sym.poly(extent), base or {})
+                for c in cands:
+                    if _covers(c, need, size):
+                        good = c
+                ext_txt = sym.show(need)
+            else:
+                ext_txt = None
+                for c in cands:
+                    if isinstance(c, ast.BinOp) and isinstance(c.op, ast.Add) and norm(c.right) == "1" and isinstance(c.left, ast.BinOp) and isinstance(c.left.op, ast.FloorDiv):
+                        good = c
+            out.append((f, lp, norm(count), size, good, ext_txt, [norm(c) for c in cands]))
     return out
 
 
@@ -143,8 +200,14 @@ def _guarded_size(repo: Repo, f: Func, size: str, before_line: int, depth: int =
 
 def r8_2(repo: Repo) -> RuleResult:
     rr = RuleResult("R8.2", "row blocks / chunks partition [0, n) and their size (a divisor) is guarded to be >= 1", floor=14)
-    for f, lp, count, size, div in _block_loops(repo):
+    for f, lp, count, size, div, extent, cands in _block_loops(repo):
         i = norm(lp.target)
+        if div is None:
+            rr.bad(f, "block loop `for %s in range(%s)` with size `%s`" % (i, count, size),
+                   "the number of blocks is `%s`: that is not enough blocks of size %s to cover %s rows in general (accepted: N // B + 1, "
+                   "ceil(N / B), (N + B - 1) // B) - the rows of the last, partial block are never processed"
+                   % (" / ".join(cands) or count, size, extent or "all"), lp.lineno)
+            continue
         pm = parents_map(f.node)
         # start = i*B (+ base) ; end = min(N, start + B)
         starts = [s for s in lp.body if isinstance(s, ast.Assign) and isinstance(s.targets[0], ast.Name)
